@@ -29,6 +29,74 @@ from .astq import FUNC_TYPES, SCOPE_TYPES, dotted, walk_local, src
 BASE_ONLY = {"SystemExit", "KeyboardInterrupt", "GeneratorExit"}
 
 
+def _constant_like(e) -> bool:
+    if isinstance(e, ast.Constant):
+        return True
+    d = dotted(e)
+    if d and "." in d:
+        head, last = d.split(".")[0], d.split(".")[-1]
+        return head[:1].isupper() and last.isupper()  # JobState.READY, RunMode.NORMAL, DependencyStatus.OK
+    return False
+
+
+def normalise_test(e):
+    """Canonical positive form of an atomic test: (expression, flipped?).
+    `a != b` -> `a == b` flipped; `is not` -> `is` flipped; `not in` -> `in` flipped; `a >= b` -> `a < b` flipped;
+    `a > b` -> `b < a`; `a <= b` -> `b < a` flipped; constants on the right of == / is; bool(x) -> x."""
+    flip = False
+    if isinstance(e, ast.Call) and dotted(e.func) == "bool" and len(e.args) == 1 and not e.keywords:
+        e2, f2 = normalise_test(e.args[0])
+        return e2, f2
+    if isinstance(e, ast.Compare) and len(e.ops) == 1:
+        op, l, r = e.ops[0], e.left, e.comparators[0]
+        new = None
+        if isinstance(op, ast.NotEq):
+            new, flip = (ast.Eq(), l, r), True
+        elif isinstance(op, ast.IsNot):
+            new, flip = (ast.Is(), l, r), True
+        elif isinstance(op, ast.NotIn):
+            new, flip = (ast.In(), l, r), True
+        elif isinstance(op, ast.GtE):
+            new, flip = (ast.Lt(), l, r), True
+        elif isinstance(op, ast.Gt):
+            new, flip = (ast.Lt(), r, l), False
+        elif isinstance(op, ast.LtE):
+            new, flip = (ast.Lt(), r, l), True
+        elif isinstance(op, (ast.Eq, ast.Is)):
+            new = (op, l, r)
+        if new is not None:
+            nop, nl, nr = new
+            if isinstance(nop, (ast.Eq, ast.Is)) and _constant_like(nl) and not _constant_like(nr):
+                nl, nr = nr, nl
+            if nop is op and nl is l and nr is r:
+                return e, False
+            c = ast.Compare(left=nl, ops=[nop], comparators=[nr])
+            ast.copy_location(c, e)
+            return c, flip
+    return e, False
+
+
+def P(text: str, pol=True):
+    """Canonical (text, polarity) pair of a guard written as source text in a rule"""
+    e = ast.parse(text, mode="eval").body
+    neg = False
+    while isinstance(e, ast.UnaryOp) and isinstance(e.op, ast.Not):
+        e = e.operand
+        neg = not neg
+    e2, flip = normalise_test(e)
+    p = pol
+    if neg:
+        p = not p
+    if flip:
+        p = not p
+    return (src(e2), p)
+
+
+def T(text: str) -> str:
+    """Canonical text of a positive-form test"""
+    return P(text, True)[0]
+
+
 class Node:
     __slots__ = ("id", "kind", "ast", "stmt", "extra", "succ", "pred")
 
@@ -275,14 +343,15 @@ class CFG:
             return f, t
         if isinstance(e, ast.Constant) and isinstance(e.value, bool):
             return (list(preds), []) if e.value else ([], list(preds))
-        n = self._new("test", e, stmt)
+        e2, flip = normalise_test(e)
+        n = self._new("test", e2, stmt, orig=e)
         self._connect(preds, n)
         self._implicit(n)
         bt = self._new("branch", None, stmt, test=n, polarity=True)
         bf = self._new("branch", None, stmt, test=n, polarity=False)
         self._edge(n, bt, True)
         self._edge(n, bf, False)
-        return [bt], [bf]
+        return ([bf], [bt]) if flip else ([bt], [bf])
 
     def _stmt(self, s, preds: List[Node]) -> List[Node]:
         if isinstance(s, ast.If):
@@ -505,6 +574,9 @@ class CFG:
             for n in self.live:
                 for x in n.walk():
                     m.setdefault(id(x), []).append(n)
+                o = n.extra.get("orig")
+                if o is not None and o is not n.ast:
+                    m.setdefault(id(o), []).append(n)
             self._astmap = m
         return self._astmap.get(id(astnode), [])
 
